@@ -465,7 +465,9 @@ func check(c *progs.Case) []finding {
 	return out
 }
 
-func kindName(k int) string { return []string{"?", "counter", "gauge", "timer", "text", "histogram"}[k] }
+func kindName(k int) string {
+	return []string{"?", "counter", "gauge", "timer", "text", "histogram"}[k]
+}
 
 func shareSeries(x, y progs.MSnap) bool {
 	key := func(m progs.MSnap, lv progs.LV) string {
